@@ -701,8 +701,11 @@ func c02RowStorage(c *Ctx, row *types.Named, cells *types.Var) {
 		}
 		eachInstr(fn, func(in ssa.Instruction) {
 			al, ok := in.(*ssa.Alloc)
-			if !ok || !al.Heap || namedOf(al.Type().(*types.Pointer).Elem()) != row {
+			if !ok || !al.Heap {
 				return
+			}
+			if n, isN := al.Type().(*types.Pointer).Elem().(*types.Named); !isN || n != row {
+				return // (a captured *Row variable is a cell holding a pointer, not a row)
 			}
 			n++
 			sep, stored := false, false
